@@ -10,6 +10,7 @@ import (
 	sdkmath "cosmossdk.io/math"
 	sdk "github.com/cosmos/cosmos-sdk/types"
 	authtypes "github.com/cosmos/cosmos-sdk/x/auth/types"
+	vestexported "github.com/cosmos/cosmos-sdk/x/auth/vesting/exported"
 	distrkeeper "github.com/cosmos/cosmos-sdk/x/distribution/keeper"
 	distrtypes "github.com/cosmos/cosmos-sdk/x/distribution/types"
 	stakingkeeper "github.com/cosmos/cosmos-sdk/x/staking/keeper"
@@ -47,9 +48,10 @@ type c14Model struct {
 	seen    map[string]bool
 	baseInv map[string]bool // invariants already broken at init (ignored)
 	// generator memory
-	nextTgt int
-	funded  []string // target keys that hold funds
-	legVal  map[int]bool
+	nextTgt  int
+	funded   []string // target keys that hold funds
+	legVal   map[int]bool
+	extraLeg []int // legacy keys created during the run (vesting accounts made by MsgCreateVestingAccount)
 }
 
 func newC14(r *Run) *c14Model {
@@ -315,16 +317,36 @@ func (c *c14Model) judge(r *Run, s *Step, idx int, t *Tx) c14Judge {
 	}
 	src0, dst0 := c14Read(w, bctx, from), c14Read(w, bctx, to)
 	tot0 := c14Totals(w, bctx)
+	idx0 := c14IndexCheck(w, bctx)
+	// what a slash of each validator the source has redelegated / unbonded from would do now
+	slash0 := map[string]string{}
+	for _, l := range src0.Staking {
+		f := strings.Fields(l)
+		if f[0] == "red" || f[0] == "ubd" {
+			va := strings.Split(f[1], ">")[0]
+			if _, done := slash0[va]; !done {
+				if v, err := c14SlashView(w, bctx, va, from); err == nil {
+					slash0[va] = v
+				}
+			}
+		}
+	}
 	h := w.App.MsgServiceRouter().Handler(msg)
 	cc, write := bctx.CacheContext()
 	if _, err := safeHandle(h, cc, msg); err != nil {
 		r.Probe("c14-branch-refused-valid")
+		if va, ok := w.App.AccountKeeper.GetAccount(bctx, from).(vestexported.VestingAccount); ok && !va.LockedCoins(bctx.BlockTime()).IsZero() {
+			r.Probe("c14-refused-vesting-source-with-locked-coins")
+		}
 		return j
 	}
 	write()
 	j.branchOK = true
 	r.Probe("c14-branch-accepted")
 	r.State("portfolio:" + src0.shape() + "/target-used=" + fmt.Sprint(!dst0.Bal.IsZero()))
+	if _, isVesting := w.App.AccountKeeper.GetAccount(bctx, from).(vestexported.VestingAccount); isVesting {
+		r.Probe("c14-accepted-vesting-source")
+	}
 	src1, dst1 := c14Read(w, bctx, from), c14Read(w, bctx, to)
 	// portfolio(target) after == portfolio(source) before (+ target's own balances)
 	if !dst1.Bal.Equal(src0.Bal.Add(dst0.Bal...)) {
@@ -343,6 +365,21 @@ func (c *c14Model) judge(r *Run, s *Step, idx int, t *Tx) c14Judge {
 	}
 	if t0, t1 := strings.Join(tot0, "\n"), strings.Join(c14Totals(w, bctx), "\n"); t0 != t1 {
 		c.later(r, "totals-unchanged", "migration", "totals changed:\n before: %s\n after: %s", t0, t1)
+	}
+	// staking indexes consistent in both directions
+	idx1 := c14IndexCheck(w, bctx)
+	for _, k := range sortedKeysG(idx1) {
+		if _, before := idx0[k]; !before {
+			c.later(r, "staking-index", k, "after migrating %s (portfolio %s): %s", from, src0.shape(), idx1[k])
+		}
+	}
+	// a late slash of a validator the source redelegated / unbonded from hits the target exactly
+	// like it would have hit the source
+	for _, va := range sortedKeysG(slash0) {
+		r.Probe("c14-slash-differential")
+		if v, err := c14SlashView(w, bctx, va, to); err != nil || v != slash0[va] {
+			c.later(r, "slash-after-migration", "redelegation-or-unbonding-escapes-slash", "slashing %s for an old infraction: without migration the source would end with [%s], after migration the target ends with [%s] (err=%v)", va, slash0[va], v, err)
+		}
 	}
 	// raw residue
 	res := c14Residue(w.DumpCtx(bctx), from)
@@ -510,7 +547,11 @@ func (c *c14Model) check(r *Run, s *Step, o *Outcome) []Violation {
 			if ok {
 				from, to := gmustAddr(w, j.from), w.KeyByName(j.to).Acc()
 				c.used[string(from)], c.used[string(to)] = true, true
-				c.pairs = append(c.pairs, c14Pair{From: j.from, To: j.to, FromAddr: from, ToAddr: to, GovAtStart: j.gov, SrcBal: w.App.BankKeeper.GetAllBalances(ctx, from)})
+				srcBal := w.App.BankKeeper.GetAllBalances(ctx, from)
+				c.pairs = append(c.pairs, c14Pair{From: j.from, To: j.to, FromAddr: from, ToAddr: to, GovAtStart: j.gov, SrcBal: srcBal})
+				if !srcBal.IsZero() && !j.gov {
+					c.later(r, "portfolio-transfer", "source-not-empty", "source %s still holds %s after the block of its migration", j.from, srcBal)
+				}
 				// residue in committed state (covers interplay with the other txs of the block)
 				res := c14Residue(w.Dump(), from)
 				for _, k := range sortedKeysG(res) {
@@ -523,6 +564,12 @@ func (c *c14Model) check(r *Run, s *Step, o *Outcome) []Violation {
 	// nothing matures to a migrated source
 	for _, p := range c.pairs {
 		c.stuck(r, ctx, p)
+	}
+	if len(c.pairs) > 0 {
+		idx := c14IndexCheck(w, ctx)
+		for _, k := range sortedKeysG(idx) {
+			c.later(r, "staking-index", k, "committed state after step (with %d migrations so far): %s", len(c.pairs), idx[k])
+		}
 	}
 	return c.flush()
 }
@@ -616,7 +663,12 @@ func (c *c14Model) finish(r *Run) []Violation {
 
 func (c *c14Model) legNames(r *Run, onlyFresh bool) []string {
 	var out []string
+	idx := make([]int, 0, gst(r).NLeg+len(c.extraLeg))
 	for i := 0; i < gst(r).NLeg; i++ {
+		idx = append(idx, i)
+	}
+	idx = append(idx, c.extraLeg...)
+	for _, i := range idx {
 		n := KeyName("leg", i)
 		if onlyFresh && (c.used[string(gsign(r.W, n).Addr)] || c.legVal[i]) {
 			continue
@@ -737,6 +789,19 @@ func (c *c14Model) genMigrate(r *Run) (Step, bool) {
 			c.legVal[i] = true
 			return blk(Tx{K: "g_create_validator", S: n, A: A("amount", FX(int64(100+rng.IntN(5000))).String())}), true
 		}
+		// a new legacy vesting account (delayed or continuous, ending soon or late); its first tx publishes its key
+		if rng.IntN(3) == 0 && len(c.extraLeg) < 3 {
+			i := st.NLeg + 10 + len(c.extraLeg)
+			c.extraLeg = append(c.extraLeg, i)
+			n := KeyName("leg", i)
+			end := r.W.Now.Unix() + int64([]int{30, 300, 3000, 1_000_000}[rng.IntN(4)])
+			first := Tx{K: "g_delegate", S: n, A: A("val", rng.IntN(st.NVal), "amount", FX(int64(1+rng.IntN(50))).String())}
+			if rng.IntN(2) == 0 {
+				first = Tx{K: "g_send", S: n, A: A("to", "user/0", "amount", "1")}
+			}
+			st.Setup = append(st.Setup, blk(first))
+			return blk(Tx{K: "g_create_vesting", S: KeyName("user", rng.IntN(st.NUser)), A: A("to", n, "amount", FX(int64(10+rng.IntN(100_000))).String(), "end", end, "delayed", rng.IntN(2))}), true
+		}
 		// prepare a used target: funds; later it may stake (then it must be refused) or take part in governance
 		c.nextTgt++
 		n := KeyName("tgt", c.nextTgt)
@@ -829,4 +894,137 @@ func sortedInts(m map[int]bool) []int {
 	}
 	sort.Ints(out)
 	return out
+}
+
+// ---------------------------------------------------------------------------------------
+// staking index consistency (raw store, both directions)
+
+// c14IndexCheck verifies, for every delegation / unbonding delegation / redelegation record,
+// that its secondary index entries exist (delegations-by-validator 0x71, unbonding-by-validator
+// 0x33, redelegation by source 0x35 and by destination 0x36 validator), that its entries are
+// reachable through the unbonding-id index (0x38) and sit in the maturation queue slot of their
+// completion time, and that no index holds more entries than there are records (an index
+// entry that points to a missing record). Result: "kind" -> first example.
+func c14IndexCheck(w *World, ctx sdk.Context) map[string]string {
+	out := map[string]string{}
+	bad := func(kind, f string, a ...interface{}) {
+		if _, ok := out[kind]; !ok {
+			out[kind] = fmt.Sprintf(f, a...)
+		}
+	}
+	sk := w.App.StakingKeeper
+	store := ctx.KVStore(w.App.GetKVStoreKey()["staking"])
+	count := func(prefix byte) int {
+		n := 0
+		it := store.Iterator([]byte{prefix}, []byte{prefix + 1})
+		defer it.Close()
+		for ; it.Valid(); it.Next() {
+			n++
+		}
+		return n
+	}
+	acc := func(s string) sdk.AccAddress { a, _ := sdk.AccAddressFromBech32(s); return a }
+	val := func(s string) sdk.ValAddress { a, _ := sdk.ValAddressFromBech32(s); return a }
+	dels, _ := sk.GetAllDelegations(ctx)
+	for _, d := range dels {
+		if !store.Has(stakingtypes.GetDelegationsByValKey(val(d.ValidatorAddress), acc(d.DelegatorAddress))) {
+			bad("delegation-without-by-validator-index", "delegation %s -> %s", d.DelegatorAddress, d.ValidatorAddress)
+		}
+	}
+	if n := count(0x71); n != len(dels) {
+		bad("by-validator-delegation-index-count", "%d index entries for %d delegations", n, len(dels))
+	}
+	nUbd := 0
+	_ = sk.IterateUnbondingDelegations(ctx, func(_ int64, u stakingtypes.UnbondingDelegation) bool {
+		nUbd++
+		del, va := acc(u.DelegatorAddress), val(u.ValidatorAddress)
+		if !store.Has(stakingtypes.GetUBDByValIndexKey(del, va)) {
+			bad("unbonding-without-by-validator-index", "unbonding %s -> %s", u.DelegatorAddress, u.ValidatorAddress)
+		}
+		for _, e := range u.Entries {
+			if v := store.Get(stakingtypes.GetUnbondingIndexKey(e.UnbondingId)); !bytes.Equal(v, stakingtypes.GetUBDKey(del, va)) {
+				bad("unbonding-id-index", "unbonding id %d of %s -> %s resolves to %x", e.UnbondingId, u.DelegatorAddress, u.ValidatorAddress, v)
+			}
+			slice, _ := sk.GetUBDQueueTimeSlice(ctx, e.CompletionTime)
+			found := false
+			for _, pr := range slice {
+				if pr.DelegatorAddress == u.DelegatorAddress && pr.ValidatorAddress == u.ValidatorAddress {
+					found = true
+				}
+			}
+			if !found {
+				bad("unbonding-not-in-queue", "unbonding entry of %s -> %s completing %s is not queued", u.DelegatorAddress, u.ValidatorAddress, e.CompletionTime)
+			}
+		}
+		return false
+	})
+	if n := count(0x33); n != nUbd {
+		bad("unbonding-by-validator-index-count", "%d index entries for %d unbonding delegations", n, nUbd)
+	}
+	nRed := 0
+	_ = sk.IterateRedelegations(ctx, func(_ int64, rd stakingtypes.Redelegation) bool {
+		nRed++
+		del, src, dst := acc(rd.DelegatorAddress), val(rd.ValidatorSrcAddress), val(rd.ValidatorDstAddress)
+		if !store.Has(stakingtypes.GetREDByValSrcIndexKey(del, src, dst)) {
+			bad("redelegation-without-by-source-validator-index", "redelegation %s %s > %s", rd.DelegatorAddress, rd.ValidatorSrcAddress, rd.ValidatorDstAddress)
+		}
+		if !store.Has(stakingtypes.GetREDByValDstIndexKey(del, src, dst)) {
+			bad("redelegation-without-by-destination-validator-index", "redelegation %s %s > %s", rd.DelegatorAddress, rd.ValidatorSrcAddress, rd.ValidatorDstAddress)
+		}
+		for _, e := range rd.Entries {
+			if v := store.Get(stakingtypes.GetUnbondingIndexKey(e.UnbondingId)); !bytes.Equal(v, stakingtypes.GetREDKey(del, src, dst)) {
+				bad("unbonding-id-index", "unbonding id %d of redelegation %s resolves to %x", e.UnbondingId, rd.DelegatorAddress, v)
+			}
+			slice, _ := sk.GetRedelegationQueueTimeSlice(ctx, e.CompletionTime)
+			found := false
+			for _, tr := range slice {
+				if tr.DelegatorAddress == rd.DelegatorAddress && tr.ValidatorSrcAddress == rd.ValidatorSrcAddress && tr.ValidatorDstAddress == rd.ValidatorDstAddress {
+					found = true
+				}
+			}
+			if !found {
+				bad("redelegation-not-in-queue", "redelegation entry of %s completing %s is not queued", rd.DelegatorAddress, e.CompletionTime)
+			}
+		}
+		return false
+	})
+	if n := count(0x35); n != nRed {
+		bad("redelegation-by-source-index-count", "%d index entries for %d redelegations", n, nRed)
+	}
+	if n := count(0x36); n != nRed {
+		bad("redelegation-by-destination-index-count", "%d index entries for %d redelegations", n, nRed)
+	}
+	return out
+}
+
+// c14SlashView: what a slash of validator valAddr (infraction at height 1, i.e. before every
+// redelegation / unbonding of the run) does on ctx: tokens burned and the owner's remaining
+// stake. Used differentially: not-migrated source vs. migrated target.
+func c14SlashView(w *World, ctx sdk.Context, valAddr string, owner sdk.AccAddress) (view string, err error) {
+	defer func() {
+		if rec := recover(); rec != nil {
+			err = fmt.Errorf("panic: %v", rec)
+		}
+	}()
+	sk := w.App.StakingKeeper
+	va, _ := sdk.ValAddressFromBech32(valAddr)
+	v, e := sk.GetValidator(ctx, va)
+	if e != nil {
+		return "", e
+	}
+	cons, e := v.GetConsAddr()
+	if e != nil {
+		return "", e
+	}
+	cc, _ := ctx.CacheContext()
+	burned, e := sk.Slash(cc, cons, 1, v.GetConsensusPower(sdk.DefaultPowerReduction), sdkmath.LegacyNewDecWithPrec(20, 2))
+	if e != nil {
+		return "", e
+	}
+	p := c14Read(w, cc, owner)
+	var lines []string
+	for _, l := range p.Staking { // rewards are not part of the comparison
+		lines = append(lines, l)
+	}
+	return fmt.Sprintf("burned=%s %s", burned, strings.Join(lines, "; ")), nil
 }
